@@ -4,7 +4,7 @@
    Statements: ProofsSystem.v (Reciprocals_stmt, Garner_stmt, Unique_stmt, Inverse_stmt, *_history_stmt,
    *_end_to_end_stmt, Functor_*_stmt). *)
 From Coq Require Import ZArith List.
-From C14 Require Import Model ProofsArith ProofsGarner ProofsSystem.
+From C14 Require Import Model ProofsArith ProofsGarner ProofsSystem ProofsPoly.
 Import ListNotations.
 Local Open Scope Z_scope.
 
@@ -68,3 +68,9 @@ Print Assumptions C14_functor_unrepaired_range_refuted.
 Theorem C14_functor_noreduce_congruent : Functor_congruent_stmt cra_noreduce.
 Proof. exact functor_noreduce_congruent. Qed.
 Print Assumptions C14_functor_noreduce_congruent.
+
+(* Poly1CRT over GF(p), p prime, points pairwise distinct mod p: RnsToRing has canonical coefficients, degree below the
+   number of points and takes the given values (RingToRns o RnsToRing = id).  Partial: the full statement
+   Poly_crt_full_stmt (ProofsPoly.v) adds uniqueness of the interpolant, which is not proved. *)
+Theorem C14_poly_interpolation_partial : Poly_interpolation_stmt.   Proof. exact poly_interpolation. Qed.
+Print Assumptions C14_poly_interpolation_partial.
